@@ -247,6 +247,63 @@ def fn_states(items):
     return {'n': n, 'nt': nt, 'viol': viol}
 
 
+def fn_maps_n3(items):
+    """item = [root, depth, cap]: N=3 maps reached by BFS (library compose with the generator maps H,S per wire and
+    all CNOTs) from the generator #root composed onto identity, to the given depth / cap: each map must be valid,
+    its action on the whole 256-string group (phase 0 and a rotating second phase) must equal the reference
+    homomorphism, and compose must agree with the reference composition."""
+    from .c04 import gens, ref_compose
+    n = nt = 0
+    viol = []
+    keys = set()
+    N = 3
+    G = ref.all_g(N)
+    for root, depth, cap in items:
+        gen = gens(N)
+        Gm = [lib.CM(t, s) for nm, t, s in gen]
+        cur = [lib.pc.identity_map(N).compose(Gm[root])]
+        seen = {(np.asarray(cur[0].gs).tobytes(), (np.asarray(cur[0].ps) % 4).tobytes())}
+        for d in range(depth):
+            nxt = []
+            for A in cur:
+                ag, ap = np.asarray(A.gs).astype(np.int64), np.asarray(A.ps).astype(np.int64) % 4
+                for gi, X in enumerate(Gm):
+                    C = A.compose(X)
+                    n += 1
+                    eg, ep = ref_compose(ag, ap, gen[gi][1], gen[gi][2])
+                    cg, cp = np.asarray(C.gs).astype(np.int64), np.asarray(C.ps).astype(np.int64) % 4
+                    if (cg != eg).any() or (cp != ep).any():
+                        viol.append(V('C03/N3/compose', [root, depth, cap], 'N=3 compose differs from the reference at depth %d' % d))
+                        continue
+                    k = (cg.tobytes(), cp.tobytes())
+                    if k in seen:
+                        continue
+                    seen.add(k)
+                    if not ref.is_valid_map(cg, cp):
+                        viol.append(V('C03/N3/invalid-map', [root, depth, cap], 'BFS reached an invalid N=3 map'))
+                        continue
+                    ph = (len(seen) % 3) + 1
+                    Ps = np.concatenate([np.zeros(len(G), dtype=np.int64), np.full(len(G), ph)])
+                    Gs = np.concatenate([G, G])
+                    lst = lib.PL(Gs, Ps)
+                    lst.transform_by(C)
+                    rg, rp = ref.map_apply(cg, cp, Gs, Ps)
+                    n += len(Gs)
+                    nt += len(Gs)
+                    if (np.asarray(lst.gs) != rg).any() or (np.asarray(lst.ps) % 4 != rp).any():
+                        viol.append(V('C03/N3/transform', [root, depth, cap], 'N=3 map: image of the group differs from the reference homomorphism'))
+                    nxt.append(C)
+                    if len(seen) >= cap:
+                        break
+                if len(seen) >= cap:
+                    break
+            cur = nxt
+            if len(seen) >= cap:
+                break
+        keys |= {hash(k) for k in seen}
+    return {'n': n, 'nt': nt, 'viol': viol, 'keys': keys}
+
+
 _UC = {}
 
 
@@ -279,6 +336,12 @@ def legs(tier):
                        'all 11520' if tier != 'quick' else '768 spread over the group (32 of every 480)')))
     out.append(Leg('rotation_maps', fn_rotmap, [[N, gi] for N in (1, 2, 3) for gi in range(4 ** N)], chunk=4,
                    bound='all Hermitian generators N<=3: clifford_rotation_map vs rotate_by vs U^dag P U on the whole group'))
+    if tier != 'quick':
+        out.append(Leg('maps_N3_bfs', fn_maps_n3, [[r_, 6, 20000] for r_ in range(12)], chunk=1, exhaustive=False, supplementary=True,
+                       bound='N=3: BFS closure under the library compose from each of the 12 generators, depth 6 / 20000 maps per root: validity, compose vs reference, action on all 256 strings (2 phases)'))
+    else:
+        out.append(Leg('maps_N3_bfs', fn_maps_n3, [[r_, 3, 400] for r_ in range(12)], chunk=1, exhaustive=False, supplementary=True,
+                       bound='N=3: BFS from each of the 12 generators, depth 3 / 400 maps per root'))
     for N in (1, 2):
         stab.tableaux(N)
         stab.valid_keyset(N)
